@@ -209,6 +209,8 @@ def run_replay_tier(pid, known, stats_extra):
     violations = []
     by_witness = {e["witness"]: e for e in known if e.get("witness")}
     files = sorted(glob.glob(os.path.join(VERIF, "replays", pid, "*.json")))
+    if os.environ.get("MSV_SKIP_REPLAY"):
+        files = []          # sensitivity experiments only: judge a tree by the generators alone
     n = 0
     for path in files:
         rel = os.path.relpath(path, VERIF)
